@@ -4,7 +4,7 @@ from __future__ import annotations
 import ast
 import re
 
-from .. import astu, types
+from .. import astu, evid, types
 from ..cfg import cfg_of
 from ..model import AnalysisError
 from ..report import key_of
@@ -49,8 +49,9 @@ def r1(R, repo):
         ok = _derives(f, p, lambda e: isinstance(e, ast.Name) and ('tmp' in e.id)) or \
             _derives(f, p, lambda e: isinstance(e, ast.Name) and e.id in ('mpa_ckpt_path',))
         why = 'temporary path' if 'tmp' in astu.src(p) else 'commit marker inside the array directory'
-        R.check(ok, key_of(f, 'io.GFile(%s, %r)' % (astu.src(p), astu.const_str(c.args[1]))), (f, c),
-                'a file is opened for writing under `%s`, which is not derived from the temporary checkpoint path: a crash while writing would leave a partial file under a final name' % astu.src(p), msg_ok=why)
+        final = _derives(f, p, lambda e: isinstance(e, ast.Name) and e.id in ('ckpt_path', 'ckpt_dir', 'base_path')) and not ok
+        R.judge(ok or final, ok, key_of(f, 'io.GFile(%s, %r)' % (astu.src(p), astu.const_str(c.args[1]))), (f, c),
+                'a file is opened for writing under `%s`, which is not derived from the temporary checkpoint path: a crash while writing would leave a partial file under a final name' % astu.src(p))
       nm = astu.call_name(c) or ''
       if nm in ('open', 'os.rename', 'os.remove', 'os.replace', 'shutil.rmtree', 'shutil.move', 'shutil.copy', 'os.unlink', 'os.makedirs'):
         R.fail(key_of(f, 'raw file-system call %s' % nm), (f, c), 'checkpoints.py must go through flax.io (found `%s`)' % astu.short(c))
@@ -59,7 +60,7 @@ def r1(R, repo):
   g = mod.func('_get_checkpoint_paths')
   tmp = types.single_def(g.node, 'ckpt_tmp_path')
   ok = isinstance(tmp, ast.Call) and astu.call_name(tmp) == '_checkpoint_path' and astu.const_str(tmp.args[1]) == 'tmp'
-  R.check(ok, key_of(g, "tmp path = _checkpoint_path(dir, 'tmp', prefix)"), g, "the temporary checkpoint name must be '<prefix>tmp' (the name listings and the overwrite check know about)")
+  R.judge(isinstance(tmp, ast.Call) and astu.call_name(tmp) == '_checkpoint_path' and len(tmp.args) >= 2 and isinstance(tmp.args[1], ast.Constant), ok, key_of(g, "tmp path = _checkpoint_path(dir, 'tmp', prefix)"), g, "the temporary checkpoint name must be '<prefix>tmp' (the name listings and the overwrite check know about)")
 
 
 @rule('C11.R2', 'K4', 5, 'path tuples are built and destructured in the same order')
@@ -73,7 +74,7 @@ def r2(R, repo):
     for n in astu.body_walk(f.node):
       if isinstance(n, ast.Assign) and isinstance(n.value, ast.Call) and astu.call_name(n.value) == '_get_checkpoint_paths':
         tg = [astu.src(e) for e in astu.flatten_targets(n.targets[0])]
-        R.check(tg == order, key_of(f, 'destructures _get_checkpoint_paths'), (f, n),
+        R.judge(sorted(tg) == sorted(order), tg == order, key_of(f, 'destructures _get_checkpoint_paths'), (f, n),
                 '_get_checkpoint_paths returns %s but %s unpacks it as %s: final and temporary path would be swapped' % (order, f.name, tg))
   s = mod.func('_save_main_ckpt_file')
   unp = [n for n in astu.body_walk(s.node) if isinstance(n, ast.Assign) and astu.src(n.value) == 'paths']
@@ -86,7 +87,7 @@ def r2(R, repo):
         n_call += 1
         a = astu.arg_or_kw(c, 2, 'paths')
         got = [astu.src(e) for e in a.elts] if isinstance(a, ast.Tuple) else None
-        R.check(got == want, key_of(f, '_save_main_ckpt_file(paths=(tmp, final))'), (f, c),
+        R.judge(got is not None and sorted(got) == sorted(want), got == want, key_of(f, '_save_main_ckpt_file(paths=(tmp, final))'), (f, c),
                 '_save_main_ckpt_file unpacks paths as %s but is called with %s' % (want, got))
   R.require(n_call >= 2, 'callers of _save_main_ckpt_file not found')
   # _save_commit positional order (tmp, final, base, ...)
@@ -96,7 +97,7 @@ def r2(R, repo):
     for c in astu.func_calls(f):
       if astu.call_name(c) == '_save_commit':
         got = [astu.src(a) for a in c.args[:3]]
-        R.check(got == ps, key_of(f, '_save_commit(tmp, final, base, …)'), (f, c), '_save_commit expects %s, called with %s' % (ps, got))
+        R.judge(sorted(got) == sorted(ps), got == ps, key_of(f, '_save_commit(tmp, final, base, …)'), (f, c), '_save_commit expects %s, called with %s' % (ps, got))
 
 
 @rule('C11.R3', 'K1', 2, 'the temporary file is closed before it is committed')
@@ -111,11 +112,11 @@ def r3(R, repo):
   commits = [n for x in astu.func_calls(f) if astu.call_name(x) in ('_save_commit', 'io.rename') for n in c.nodes_for(x)]
   R.require(commits, '_save_main_ckpt_file: commit call not found')
   ok = all(c.dominated(cm, exits) for cm in commits)
-  R.check(ok, key_of(f, 'commit after the with-block closed the file'), (f, w.stmt),
+  R.check(ok, key_of(f, 'commit after the with-block closed the file'), (f, w.stmt), evidence=True, msg_fail=
           'the rename/commit must come after the `with io.GFile(...)` block has closed (flushed) the temporary file')
   writes = [x for x in astu.func_calls(f) if astu.call_tail(x) == 'write']
   ok = len(writes) == 1 and astu.src(writes[0].args[0]) == astu.params(f.node)[0] and all(w in c.reach([c.entry]) for w in [withs[0]])
-  R.check(ok, key_of(f, 'whole payload written once'), f, 'the serialized bytes must be written exactly once inside the with-block')
+  R.judge(len(writes) >= 1, ok, key_of(f, 'whole payload written once'), f, 'the serialized bytes must be written exactly once inside the with-block')
 
 
 def _nodes_calling(c, f, names):
@@ -134,21 +135,21 @@ def r4(R, repo):
   ren = [n for x in astu.func_calls(sc) if astu.call_name(x) == 'io.rename' and astu.src(x.args[0]) == astu.params(sc.node)[0] for n in c.nodes_for(x)]
   rem = _nodes_calling(c, sc, {'_remove_invalid_ckpts'})
   R.require(len(ren) == 1 and len(rem) == 1, '_save_commit: main rename / _remove_invalid_ckpts not found')
-  R.check(c.dominated(rem[0], ren), key_of(sc, 'rename(tmp, final) before _remove_invalid_ckpts'), (sc, rem[0].stmt),
+  R.check(c.dominated(rem[0], ren), key_of(sc, 'rename(tmp, final) before _remove_invalid_ckpts'), (sc, rem[0].stmt), evidence=True, msg_fail=
           'old checkpoints are removed before the new one is renamed into place: a crash in between leaves fewer checkpoints than `keep` (possibly none)',
           witness=c.witness(c.entry, rem[0], avoid=ren))
   final = astu.params(sc.node)[1]
   destr = [x for x in astu.func_calls(sc) if astu.call_name(x) in ('_safe_remove', 'io.remove', 'io.rmtree') and x.args and astu.src(x.args[0]) == final]
-  R.check(not destr, key_of(sc, 'the committed file is replaced by the rename itself, never removed first'), (sc, destr[0]) if destr else sc,
+  R.check(not destr, key_of(sc, 'the committed file is replaced by the rename itself, never removed first'), (sc, destr[0]) if destr else sc, evidence=True, msg_fail=
           '`%s` deletes the final checkpoint path before the rename: a crash between the two leaves neither the old nor the new checkpoint of that step (rename with overwrite replaces it atomically)' % (astu.short(destr[0]) if destr else ''))
   rn = [x for x in astu.func_calls(sc) if astu.call_name(x) == 'io.rename' and astu.src(x.args[0]) == astu.params(sc.node)[0]][0]
-  R.check(astu.src(astu.kwarg(rn, 'overwrite')) == 'overwrite' and astu.src(rn.args[1]) == astu.params(sc.node)[1], key_of(sc, 'rename honours overwrite'), (sc, rn),
-          'the commit rename must pass overwrite=overwrite (an existing step is replaced only on request)')
+  evid.judge_forward(R, repo, sc, rn, ['overwrite', astu.params(sc.node)[1]], key_of(sc, 'rename honours overwrite'), 'the commit rename must pass overwrite=overwrite (an existing step is replaced only on request) and target the final path',
+                     alias={astu.params(sc.node)[1]: 'dst'}, pos={astu.params(sc.node)[1]: 1, 'overwrite': 2})
   # arrays before the main file; wait for the previous async save before renaming
   mpa = [n for x in astu.func_calls(sc) if astu.call_name(x) == 'io.rename' and 'mpa' in astu.src(x.args[0]) for n in c.nodes_for(x)]
   waits = _nodes_calling(c, sc, {'wait_previous_save'})
   ok = bool(mpa) and all(ren[0] in c.reach([m]) and m not in c.reach(ren) for m in mpa) and bool(waits) and all(ren[0] in c.reach([w]) and w not in c.reach(ren) for w in waits)
-  R.check(ok, key_of(sc, 'array directory and previous async save first'), sc,
+  R.judge(bool(mpa) and bool(waits), ok, key_of(sc, 'array directory and previous async save first'), sc,
           'the multi-process array directory must be committed, and a previous async save awaited, before the main file is renamed')
   for qual in ('save_checkpoint', 'save_checkpoint_multiprocess'):
     f = mod.func(qual)
@@ -156,13 +157,13 @@ def r4(R, repo):
     saves = [n for x in astu.func_calls(f) if astu.src(x.func) == 'orbax_checkpointer.save' for n in cf.nodes_for(x)]
     rems = _nodes_calling(cf, f, {'_remove_invalid_ckpts'})
     R.require(len(saves) == 1 and len(rems) == 1, '%s: orbax save / retention call not found' % qual)
-    R.check(cf.dominated(rems[0], saves), key_of(f, 'orbax save before _remove_invalid_ckpts'), (f, rems[0].stmt),
+    R.check(cf.dominated(rems[0], saves), key_of(f, 'orbax save before _remove_invalid_ckpts'), (f, rems[0].stmt), evidence=True, msg_fail=
             '%s (Orbax back-end) applies the retention policy before the new checkpoint is saved: after the save the directory holds keep+1 checkpoints, and with '
             'overwrite=True newer checkpoints are deleted before their replacement exists' % qual,
             witness=cf.witness(cf.entry, rems[0], avoid=saves))
     sv = [x for x in astu.func_calls(f) if astu.src(x.func) == 'orbax_checkpointer.save'][0]
-    R.check(astu.src(astu.kwarg(sv, 'force')) == 'overwrite' and astu.src(sv.args[0]) == 'ckpt_path', key_of(f, 'orbax save(ckpt_path, force=overwrite)'), (f, sv),
-            'the Orbax save must target the final step path with force=overwrite')
+    evid.judge_expr(R, f, astu.kwarg(sv, 'force'), 'overwrite', key_of(f, 'orbax save(ckpt_path, force=overwrite)') + ' :: force', (f, sv), 'the Orbax save must use force=overwrite')
+    evid.judge_expr(R, f, sv.args[0] if sv.args else None, 'ckpt_path', key_of(f, 'orbax save(ckpt_path, force=overwrite)') + ' :: path', (f, sv), 'the Orbax save must target the final step path', vocab=('ckpt_tmp_path', 'base_path'))
 
 
 @rule('C11.R5', 'K1', 4, 'a save that must be refused is refused before anything is touched')
@@ -172,6 +173,9 @@ def r5(R, repo):
     f = mod.func(qual)
     c = cfg_of(f)
     chk = _nodes_calling(c, f, {'_check_overwrite_error'})
+    if not chk and evid.calls_deep(repo, f, evid.call_named('_check_overwrite_error')):
+      R.unsure(key_of(f, 'overwrite check dominates every write'), f, '_check_overwrite_error is called from a helper')
+      continue
     if not chk:
       R.fail(key_of(f, 'overwrite check dominates every write'), f, '%s never calls _check_overwrite_error: a save at an existing or older step would silently proceed' % qual)
       continue
@@ -183,10 +187,10 @@ def r5(R, repo):
     lab_other = [(tests[0], m, l) for m, l in c.succ[tests[0]] if l != 'T'] if tests else []
     legacy = [w for w in writers]
     ok = ok and bool(legacy) and all(c.must_pass(c.entry, w, chk, avoid_edges=lab_other) for w in legacy)
-    R.check(ok, key_of(f, 'overwrite check dominates every write'), f,
+    R.judge(len(tests) == 1 and bool(legacy), ok, key_of(f, 'overwrite check dominates every write'), f,
             '%s: when overwrite is false, _check_overwrite_error must run before any file is written' % qual)
     call = [x for x in astu.func_calls(f) if astu.call_name(x) == '_check_overwrite_error'][0]
-    R.check([astu.src(a) for a in call.args] == ['ckpt_tmp_path', 'ckpt_path', 'base_path', 'step'], key_of(f, 'check receives (tmp, final, base, step)'), (f, call),
+    R.judge(sorted(astu.src(a) for a in call.args) == sorted(['ckpt_tmp_path', 'ckpt_path', 'base_path', 'step']), [astu.src(a) for a in call.args] == ['ckpt_tmp_path', 'ckpt_path', 'base_path', 'step'], key_of(f, 'check receives (tmp, final, base, step)'), (f, call),
             '_check_overwrite_error must receive (ckpt_tmp_path, ckpt_path, base_path, step)')
   ce = mod.func('_check_overwrite_error')
   c = cfg_of(ce)
@@ -200,7 +204,7 @@ def r5(R, repo):
   R.check(ok, key_of(ce, 'rejects an existing step and any step that is not the numerically largest'), ce,
           '_check_overwrite_error must raise for an existing step, and (after adding the new path and natural-sorting, ignoring a trailing leftover tmp file) when the new step is not last')
   io_mut = _io_calls(ce, FS_MUTATORS)
-  R.check(not io_mut, key_of(ce, 'read-only'), ce, '_check_overwrite_error must not modify the directory')
+  R.check(not io_mut, key_of(ce, 'read-only'), ce, '_check_overwrite_error must not modify the directory', evidence=True)
 
 
 def _listing_exclusions(f):
@@ -224,19 +228,19 @@ def r6(R, repo):
   inc, exc = _listing_exclusions(allc)
   want = {"f'{prefix}tmp'": 'legacy temp file', "f'*{MP_ARRAY_POSTFIX}'": 'multi-process array directory', "f'*{ocp.utils.TMP_DIR_SUFFIX}*'": 'Orbax temp directory'}
   for pat, what in want.items():
-    R.check(pat in exc, key_of(allc, 'excludes %s' % pat), allc, '_all_checkpoints must hide the %s (%s): latest_checkpoint/restore would otherwise return a partial checkpoint' % (what, pat))
-  R.check(inc == ["f'{prefix}*'"], key_of(allc, 'lists <prefix>*'), allc, '_all_checkpoints must list exactly the names starting with the prefix')
+    R.judge(len(exc) >= 1 and len(inc) >= 1, pat in exc, key_of(allc, 'excludes %s' % pat), allc, '_all_checkpoints must hide the %s (%s): latest_checkpoint/restore would otherwise return a partial checkpoint' % (what, pat))
+  R.judge(len(inc) == 1, inc == ["f'{prefix}*'"], key_of(allc, 'lists <prefix>*'), allc, '_all_checkpoints must list exactly the names starting with the prefix')
   rm = mod.func('_remove_invalid_ckpts')
   inc, exc = _listing_exclusions(rm)
   # retention deletes and counts: it must not see in-flight directories that can exist when it runs
   for pat in ("f'*{MP_ARRAY_POSTFIX}'", "f'*{ocp.utils.TMP_DIR_SUFFIX}*'"):
-    R.check(pat in exc, key_of(rm, 'retention listing excludes %s' % pat), rm,
+    R.judge(len(exc) >= 1 and len(inc) >= 1, pat in exc, key_of(rm, 'retention listing excludes %s' % pat), rm,
             'the retention listing counts and sorts entries matching %s as checkpoints: a leftover in-flight directory pushes a complete checkpoint out of the `keep` newest '
             'and gets real checkpoints deleted' % pat)
   ce = mod.func('_check_overwrite_error')
   inc, exc = _listing_exclusions(ce)
   tmp_handled = any('ckpt_tmp_path' in astu.src(n) for n in astu.body_walk(ce.node) if isinstance(n, ast.If))
-  R.check("f'*{MP_ARRAY_POSTFIX}'" in exc and tmp_handled, key_of(ce, 'overwrite check ignores array dirs and tolerates a leftover tmp file'), ce,
+  R.judge(len(inc) >= 1 and tmp_handled, "f'*{MP_ARRAY_POSTFIX}'" in exc and tmp_handled, key_of(ce, 'overwrite check ignores array dirs and tolerates a leftover tmp file'), ce,
           '_check_overwrite_error must ignore *_gda directories and tolerate a leftover <prefix>tmp as the last entry')
   # the temp name listings hide is the name writers create
   g = mod.func('_get_checkpoint_paths')
@@ -246,7 +250,7 @@ def r6(R, repo):
   R.check(ok, key_of(cp, "name = f'{prefix}{step}'"), cp, "checkpoint names must be f'{prefix}{step}' so that f'{prefix}tmp' is exactly the temp name")
   for qual in ('latest_checkpoint', 'available_steps'):
     f = mod.func(qual)
-    R.check(any(astu.call_name(x) == '_all_checkpoints' for x in astu.func_calls(f)), key_of(f, 'uses _all_checkpoints'), f, '%s must list through _all_checkpoints' % qual)
+    R.judge(any(astu.call_name(x) == '_all_checkpoints' for x in astu.func_calls(f)) or bool(_io_calls(f, {'listdir', 'glob'})), any(astu.call_name(x) == '_all_checkpoints' for x in astu.func_calls(f)), key_of(f, 'uses _all_checkpoints'), f, '%s must list through _all_checkpoints' % qual)
   lc = mod.func('latest_checkpoint')
   R.check('checkpoint_files[-1]' in astu.src(lc.node), key_of(lc, 'last of the natural-sorted list'), lc, 'latest_checkpoint must return the last entry of the natural-sorted listing')
 
@@ -260,7 +264,7 @@ def r7(R, repo):
   R.require(len(srt) == 1, '_remove_invalid_ckpts: natural_sort not found')
   removals = _nodes_calling(c, f, {'_safe_remove'})
   R.require(len(removals) == 2, '_remove_invalid_ckpts: two _safe_remove sites expected')
-  R.check(all(c.dominated(r, srt) for r in removals), key_of(f, 'sorted before any removal'), f, 'the listing must be natural-sorted before anything is removed')
+  R.check(all(c.dominated(r, srt) for r in removals), key_of(f, 'sorted before any removal'), f, evidence=True, msg_fail= 'the listing must be natural-sorted before anything is removed')
   t_over = [n for n in c.nodes if n.kind == 'if' and 'overwrite' in astu.names_loaded(n.ast) and
             not (isinstance(n.ast, ast.BoolOp) and isinstance(n.ast.op, ast.Or))]
   newer_loop = [n for n in c.nodes if n.kind == 'for' and astu.src(n.ast) == 'newer_ckpts']
@@ -268,16 +272,16 @@ def r7(R, repo):
   R.require(len(newer_loop) == 1 and len(old_loop) == 1, '_remove_invalid_ckpts: removal loops not found')
   newer_rm = [r for r in removals if r in c.loop_body_nodes(newer_loop[0].stmt)]
   old_rm = [r for r in removals if r in c.loop_body_nodes(old_loop[0].stmt)]
-  R.check(len(newer_rm) == 1 and any(c.edge_guarded(newer_rm[0], t, 'T') for t in t_over), key_of(f, 'newer checkpoints removed only with overwrite'), f,
-          'checkpoints newer than the saved step may be removed only when overwrite is true and the step exists')
+  evid.judge_guard(R, c, newer_rm, lambda e: isinstance(e, ast.Name) and e.id == 'overwrite', key_of(f, 'newer checkpoints removed only with overwrite'), f,
+                   'checkpoints newer than the saved step may be removed only when overwrite is true and the step exists')
   nd = types.single_def(f.node, 'newer_ckpts')
   ind = types.single_def(f.node, 'ind')
-  R.check(astu.src(nd) == 'checkpoint_files[ind:]' and astu.src(ind) == 'checkpoint_files.index(ckpt_path) + 1', key_of(f, 'newer = entries after the saved step'), f,
-          '`newer_ckpts` must be exactly the entries after the saved step in sorted order')
+  evid.judge_expr(R, f, nd, 'checkpoint_files[ind:]', key_of(f, 'newer = entries after the saved step'), f, '`newer_ckpts` must be exactly the entries after the saved step in sorted order', follow=False)
+  evid.judge_expr(R, f, ind, 'checkpoint_files.index(ckpt_path) + 1', key_of(f, 'newer = entries after the saved step') + ' :: index', f, '`newer_ckpts` must start right after the saved step', follow=False)
   od = types.single_def(f.node, 'old_ckpts')
   t_keep = [n for n in c.nodes if n.kind == 'if' and astu.src(n.ast) == 'len(checkpoint_files) > keep']
-  R.check(astu.src(od) == 'checkpoint_files[:-keep]' and len(t_keep) == 1 and len(old_rm) == 1 and c.edge_guarded(old_rm[0], t_keep[0], 'T'), key_of(f, 'old = all but the keep newest'), f,
-          'old checkpoints must be `checkpoint_files[:-keep]`, removed only when there are more than `keep`')
+  evid.judge_expr(R, f, od, 'checkpoint_files[:-keep]', key_of(f, 'old = all but the keep newest'), f, 'old checkpoints must be `checkpoint_files[:-keep]`', follow=False)
+  R.judge(len(t_keep) == 1 and len(old_rm) == 1, len(t_keep) == 1 and len(old_rm) == 1 and c.edge_guarded(old_rm[0], t_keep[0], 'T'), key_of(f, 'old removed only beyond keep'), f, 'old checkpoints may be removed only when there are more than `keep`')
   conts = [n for n in c.nodes if isinstance(n.stmt, ast.Continue)]
   t_every = [n for n in c.nodes if n.kind == 'if' and astu.src(n.ast) == 'keep_every_n_steps']
   t_gap = [n for n in c.nodes if n.kind == 'if' and 'step_number - last_kept' in astu.src(n.ast)]
@@ -285,7 +289,7 @@ def r7(R, repo):
       '>= keep_every_n_steps' in astu.src(t_gap[0].ast)
   upd = [n for n in c.nodes if isinstance(n.stmt, ast.Assign) and astu.src(n.stmt) == 'last_kept = step_number']
   ok = ok and len(upd) == 1 and c.dominated(conts[0], upd)
-  R.check(ok, key_of(f, 'keep_every_n_steps spares a checkpoint and remembers it'), f,
+  R.judge(len(conts) == 1 and len(t_every) == 1 and len(t_gap) == 1, ok, key_of(f, 'keep_every_n_steps spares a checkpoint and remembers it'), f,
           'a checkpoint at least keep_every_n_steps after the last spared one must be kept (continue) and recorded in last_kept')
   sr = mod.func('_safe_remove')
   R.check('io.isdir' in astu.src(sr.node) and 'io.rmtree' in astu.src(sr.node) and 'io.remove' in astu.src(sr.node), key_of(sr, 'rmtree for dirs, remove for files'), sr,
@@ -315,7 +319,7 @@ def r8(R, repo):
         final = cur.orelse
         cur = None
     ok = sorted(handled) == modes and final and isinstance(final[-1], ast.Raise)
-    R.check(ok, key_of(f, 'handles %s, else raises' % modes), f, 'io.%s handles modes %s of %s and %s' % (f.name, sorted(handled), modes, 'raises otherwise' if final and isinstance(final[-1], ast.Raise) else 'does NOT raise otherwise'))
+    R.judge(len(handled) >= 1, ok, key_of(f, 'handles %s, else raises' % modes), f, 'io.%s handles modes %s of %s and %s' % (f.name, sorted(handled), modes, 'raises otherwise' if final and isinstance(final[-1], ast.Raise) else 'does NOT raise otherwise'))
   for name in ('rename', 'copy'):
     f = mod.func(name)
     c = cfg_of(f)
@@ -325,7 +329,17 @@ def r8(R, repo):
     ok = len(raises) == 1 and len(tests) == 1 and c.edge_guarded(raises[0], tests[0], 'T') and acts and all(c.dominated(a, tests) for a in acts)
     tf = [x for x in astu.func_calls(f) if (astu.call_name(x) or '').startswith('gfile.')]
     ok = ok and len(tf) == 1 and astu.src(astu.kwarg(tf[0], 'overwrite')) == 'overwrite' and astu.is_const(astu.param_default(f.node, 'overwrite'), False)
-    R.check(ok, key_of(f, 'refuses to clobber unless overwrite'), f, 'io.%s must raise AlreadyExistsError when dst exists and overwrite is false, before acting, in both back-ends' % name)
+    may, must = evid.reach_env(c, {'os.path.exists(dst)': True, 'overwrite': False, 'io_mode == BackendMode.DEFAULT': True, 'io_mode == BackendMode.TF': False})
+    key = key_of(f, 'refuses to clobber unless overwrite')
+    msg = 'io.%s must raise AlreadyExistsError when dst exists and overwrite is false, before acting, in both back-ends' % name
+    if acts and any(a in must for a in acts):
+      R.fail(key, f, msg + ': `%s` is reached with dst existing and overwrite false' % astu.short([a for a in acts if a in must][0].stmt))
+    elif ok:
+      R.ok(key, f)
+    elif len(tf) == 1 and astu.kwarg(tf[0], 'overwrite') is None and not astu.has_star_kwargs(tf[0]) and len(tf[0].args) < 3:
+      R.fail(key, f, msg + ': the gfile call does not receive overwrite')
+    else:
+      R.unsure(key, f, msg)
 
 
 @rule('C11.R9', 'K1', 4, 'async ordering: the previous save is awaited before paths are computed or a new task is submitted')
@@ -340,12 +354,12 @@ def r9(R, repo):
     ok = len(paths) == 1 and waits and t and all(c.edge_guarded(w, t[0], 'T') for w in waits[:1])
     other = [(t[0], m, l) for m, l in c.succ[t[0]] if l != 'T'] if t else []
     ok = ok and c.must_pass(c.entry, paths[0], waits, avoid_edges=other)
-    R.check(ok, key_of(f, 'wait_previous_save before anything else'), f, '%s must wait for the previous async save before computing paths / checking / removing' % qual)
+    R.judge(len(paths) == 1 and bool(waits) and bool(t), ok, key_of(f, 'wait_previous_save before anything else'), f, '%s must wait for the previous async save before computing paths / checking / removing' % qual)
   am = mod.func('AsyncManager.save_async')
   c = cfg_of(am)
   w = _nodes_calling(c, am, {'wait_previous_save'})
   s = _nodes_calling(c, am, {'submit'})
-  R.check(len(w) == 1 and len(s) == 1 and c.dominated(s[0], w), key_of(am, 'wait before submit'), am, 'save_async must wait for the previous task before submitting the next one')
+  R.judge(len(s) == 1 and (len(w) == 1 or not evid.calls_deep(repo, am, evid.call_named('wait_previous_save'))), len(w) == 1 and len(s) == 1 and c.dominated(s[0], w), key_of(am, 'wait before submit'), am, 'save_async must wait for the previous task before submitting the next one')
   ini = mod.func('AsyncManager.__init__')
   R.check(astu.is_const(astu.param_default(ini.node, 'max_workers'), 1) and 'max_workers=max_workers' in astu.src(ini.node), key_of(ini, 'single worker by default'), ini,
           'AsyncManager must default to one worker (tasks run in submission order)')
@@ -371,15 +385,15 @@ def r10(R, repo):
     except Exception:
       raise AnalysisError('%s pattern is not a literal' % name)
     pats[name] = pat
-    R.check(_groups(pat) == 1, key_of(mod.rel, '%s has exactly one capturing group' % name), mod,
+    R.check(_groups(pat) == 1, key_of(mod.rel, '%s has exactly one capturing group' % name), mod, evidence=True, msg_fail=
             '%s has %d capturing groups: re.split would not alternate text/number and natural_sort keys would compare floats with strings' % (name, _groups(pat)))
   rx = re.compile(pats['SIGNED_FLOAT_RE'])
   samples = {'7': 7.0, '-3': -3.0, '+2': 2.0, '1.5': 1.5, '1e-05': 1e-05, '-2.5E+3': -2500.0, '10': 10.0, '.5': 0.5}
   bad = [s for s, v in samples.items() if not (rx.fullmatch(s) and float(rx.fullmatch(s).group(1)) == v)]
-  R.check(not bad, key_of(mod.rel, 'SIGNED_FLOAT_RE matches ints, floats, signs, exponents'), mod, 'SIGNED_FLOAT_RE does not fully match %s (constant-folded on a fixed sample)' % bad)
+  R.check(not bad, key_of(mod.rel, 'SIGNED_FLOAT_RE matches ints, floats, signs, exponents'), mod, evidence=True, msg_fail= 'SIGNED_FLOAT_RE does not fully match %s (constant-folded on a fixed sample)' % bad)
   ux = re.compile(pats['UNSIGNED_FLOAT_RE'])
   bad = [s for s in ('7', '1.5', '1e-05', '10', '-3', '+2') if not (ux.fullmatch(s) and ux.fullmatch(s).group(1) == s.lstrip('+-'))]
-  R.check(not bad, key_of(mod.rel, 'UNSIGNED_FLOAT_RE captures the magnitude without the sign'), mod, 'UNSIGNED_FLOAT_RE misclassifies %s' % bad)
+  R.check(not bad, key_of(mod.rel, 'UNSIGNED_FLOAT_RE captures the magnitude without the sign'), mod, evidence=True, msg_fail= 'UNSIGNED_FLOAT_RE misclassifies %s' % bad)
   ns = mod.func('natural_sort')
   mn = mod.func('natural_sort.maybe_num')
   sk = mod.func('natural_sort.split_keys')
